@@ -59,3 +59,21 @@ claim("C06", "model_checking",
       "Trusted: TLC; real echo hashes are mapped to abstract view hashes by the harness (a real collision between different views is itself reported). Exhaustive for 3 parties in the model; real protocols by scenario x sampled schedules.",
       "TLC model checking of Handler.tla (equivocation cfg) + TLC-enumerated equivocation scenarios run on real protocols + trace validation",
       "DESIGN.md §3.1, §3.2, §5 C06")
+
+claim("C03", "fault_enumeration",
+      "FaultCat.tla (TLC) enumerates the catalogue the property quantifies over from the DISCOVERED structure of the real messages: message slot x field path x alteration (boundary values, bit flips, value copied from the same field of another run, re-randomised value, null / absent / truncated / extended) x deviating party x recipients. Every case is run on the real protocol with one real party whose emitted message is altered at CBOR level; every honest API call is recorded and validated against Handler.tla (TLC), whose invariant WrongNeverAccepted says no honest party is ever done with a result the independent verifier (math/big ECDSA / Schnorr / BIP-340) rejects; key material of honest finishers is checked for mutual consistency with independent arithmetic.",
+      "One deviating participant, alterations of real messages (no strategies needing the cheater's secret state beyond what C04's presign cheater covers). CMP is sampled (seconds per session); FROST / Taproot / toy catalogues are run completely in the thorough tier. Doerner (two-party handler) is not covered by this check.",
+      "TLC-enumerated fault catalogue (FaultCat.tla) executed on real protocols + trace validation against Handler.tla with an independent result oracle",
+      "DESIGN.md §5 C03")
+
+claim("C04", "model_checking",
+      "Handler.tla is checked exhaustively (3 parties, one Byzantine using valid, equivocated, failing, undecodable and protocol-detected payloads, wrong message kinds, abort notices; every delivery order) for BlameSound (a self-detected error names only the deviating party), EchoNamesNobody and NoticeBlame; TLC rejects the pre-fix ordering (echo compared only in finalize) as a negative control. The deviations of FaultCat.tla (field alterations, header malformations, every equivocation scenario) are run on real protocols with exactly one deviating real party; the harness knows who deviated and checks Culprits at every honest party, and every recorded API call is validated against Handler.tla with the blame invariants evaluated in every state.",
+      "Exhaustive for 3 parties in the model; real protocols by catalogue (CMP sampled). The presign identifiable-abort rounds with a state-level cheater are covered only as far as message alterations reach them.",
+      "TLC model checking of Handler.tla blame invariants + TLC-enumerated deviations run on real protocols + trace validation",
+      "DESIGN.md §3.1, §5 C04")
+
+claim("C05", "fault_enumeration",
+      "FaultCat.tla (TLC) enumerates message slot x field path x structural malformation (null, absent, truncated, extended, empty, 5000-element collections, all-zero / all-one / random bytes) and slot x 17 header malformations (recipient, sender, round 0 / past / too big, SSID, protocol, nil / empty / junk / truncated data, flipped broadcast flag, echo field) x cheater x recipient, with the reaction Handler.tla allows (ignore, store, clean abort naming the sender). Each case is delivered to real honest handlers in child processes with an address-space limit; the recorded API calls are validated against Handler.tla by TLC. A panic, a hang, a call exceeding its time limit or the death of the process (e.g. out of memory) is attributed to the exact input and reported with the crashing site.",
+      "Handlers run with a nil pool (a panic inside a pool worker would look the same to the user but is not separately observed). Memory and time are measured, not modelled. Byte strings off the malformation lattice are sampled.",
+      "TLC-enumerated malformation catalogue (FaultCat.tla) delivered to real handlers in isolated processes + trace validation against Handler.tla",
+      "DESIGN.md §5 C05")
